@@ -188,6 +188,10 @@ class Verifier(Interp):
         node, seg, sha = extract.find(c.key)
         mod, pyobj, owner = resolve_py(c.key)
         globs = mod.__dict__
+        if c.options.get("globals_override"):
+            globs = dict(globs)
+            globs.update(c.options["globals_override"])
+            self.assumptions.add("tolerance constants overridden for the proof over the reals: " + ", ".join(f"{k}={v}" for k, v in c.options["globals_override"].items()))
         self.cur_contract = c
         self.cur_key = c.key
         fn_label = c.short
